@@ -731,6 +731,213 @@ def run_properties(ctx, dc, b):
         b.flush()
 
 
+def _special_props():
+    """DateOfBirthProperty and list valued attribute properties of the real classes and of a probe class"""
+    from lxml import etree
+    from sdc11073.mdib import descriptorcontainers, statecontainers
+    from sdc11073.xml_types import msg_types, pm_types
+    from sdc11073.xml_types import xml_structure as xs
+    from sdc11073.xml_types.basetypes import XMLTypeBase
+    ns = 'urn:verif:c18'
+
+    class Probe2(XMLTypeBase):
+        Dob = xs.DateOfBirthProperty(etree.QName(ns, 'Dob'))
+        DecL = xs.DecimalListAttributeProperty('DecL')
+        RefL = xs.HandleRefListAttributeProperty('RefL')
+        _props = ('Dob', 'DecL', 'RefL')
+    res, seen = [], set()
+    classes = [Probe2]
+    for mod in (pm_types, msg_types, descriptorcontainers, statecontainers):
+        classes += [c for _, c in sorted(vars(mod).items()) if inspect.isclass(c) and c.__module__ == mod.__name__]
+    for cls in classes:
+        for klass in cls.__mro__:
+            for name, prop in vars(klass).items():
+                if id(prop) in seen:
+                    continue
+                if isinstance(prop, xs.DateOfBirthProperty):
+                    kind = 'dob'
+                elif isinstance(prop, xs._AttributeListBase):
+                    from sdc11073.xml_types import dataconverters as dcm
+                    kind = 'declist' if prop._converter._element_converter is dcm.DecimalConverter else 'strlist'
+                else:
+                    continue
+                seen.add(id(prop))
+                res.append((klass, name, prop, kind))
+    return res
+
+
+def _write_through_property(klass, name, prop, value):
+    """the node an instance of klass writes for the property"""
+    from lxml import etree
+    inst = object.__new__(klass)
+    setattr(inst, name, value)
+    node = etree.Element('x')
+    prop.update_xml_value(inst, node)
+    return etree.fromstring(etree.tostring(node))
+
+
+def _dob_text(klass, name, prop, info):
+    node = _write_through_property(klass, name, prop, info)
+    sub = node.find(prop._sub_element_name) if prop._sub_element_name is not None else node
+    return None if sub is None else sub.text
+
+
+def dob_oracle(ctx, iso, klass, name, prop, s):
+    """date / dateTime / gYearMonth / gYear union read and written THROUGH the node property"""
+    where = f'{klass.__name__}.{name}'
+    case = {'kind': 'dob', 'cls': f'{klass.__module__}.{klass.__name__}', 'name': name, 's': s}
+    r = call(_read_through_property, klass, name, prop, False, s)
+    dt_oracle(ctx, iso, s, r, parse=lambda t: _read_through_property(klass, name, prop, False, t),
+              write=lambda info: _dob_text(klass, name, prop, info), what=where + ' <- ', sig='property:date', case=case)
+    conv = call(iso.parse_date_time, s)
+    if conv[0] != r[0] or (r[0] == 'ok' and conv[1] != r[1]):
+        ctx.fail('property:date:differs-from-parser', f'{where} <- {s!r}: property gives {r}, parse_date_time gives {conv}', case)
+    return r
+
+
+def gen_decimal_lists(rng, n):
+    """lists of Decimals incl. the values whose str() is exponent notation (tiny, positive exponent, zero with exponent)"""
+    res = [[Decimal('5E-7'), Decimal('1E+2'), Decimal('0E-15')], [Decimal('0E+3')], [Decimal('-0')], [], [Decimal('1.50'), Decimal('-2')]]
+    for _ in range(n):
+        lst = []
+        for _ in range(rng.randrange(1, 7)):
+            k = rng.randrange(6)
+            nd = rng.randrange(1, 19)
+            c = rng.randrange(10 ** (nd - 1), 10 ** nd)
+            if k == 0:
+                d = mk_dec(rng.randrange(2), rng.randrange(1, 1000), rng.randrange(-18, -6))      # tiny: str() is 'xE-n'
+            elif k == 1:
+                d = mk_dec(rng.randrange(2), c, rng.randrange(1, 19))                             # positive exponent: 'xE+n'
+            elif k == 2:
+                d = mk_dec(rng.randrange(2), 0, rng.randrange(-18, 19))                           # zero with an exponent
+            elif k == 3:
+                d = mk_dec(rng.randrange(2), c, -rng.randrange(0, min(nd, 18) + 1))               # ordinary
+            elif k == 4:
+                d = mk_dec(rng.randrange(2), c, rng.randrange(-18, 1))
+            else:
+                d = Decimal(rng.randrange(-1000, 1000))
+            lst.append(d)
+        res.append(lst)
+    return res
+
+
+def list_property_oracle(ctx, dc, klass, name, prop, kind, values, b=None):
+    """Python -> XML -> Python through a list valued attribute property: every token is a literal of the item type with the
+    value of the item, the list is read back unchanged"""
+    where = f'{klass.__name__}.{name}'
+    case = {'kind': 'proplist', 'cls': f'{klass.__module__}.{klass.__name__}', 'name': name, 'values': [str(v) for v in values], 'item': kind}
+    w = call(_write_through_property, klass, name, prop, list(values))
+    if w[0] != 'ok':
+        ctx.fail('property:list-write', f'{where} = {values!r} raised {w[1]}', case)
+        return
+    xml = w[1].get(prop._attribute_name)
+    tokens = [] if xml is None else [t for t in xml.split(' ') if t]
+    if len(tokens) != len(values):
+        ctx.fail('property:list-token-count', f'{where} = {values!r} written as {xml!r}', case)
+        return
+    for tok, v in zip(tokens, values):
+        if kind == 'declist':
+            if not RE_DEC.match(tok):
+                ctx.fail('property:list-token-not-lexical', f'{where} = {values!r} written as {xml!r}: {tok!r} is not an xsd:decimal', case)
+                return
+            if Decimal(tok) != v:
+                ctx.fail('property:list-value', f'{where}: item {v!r} written as {tok!r}', case)
+                return
+            if b is not None:
+                b.add('decxml ' + dec_tuple(v), 'ok ' + tok, 'item written through ' + type(prop).__name__, {'cls': klass.__name__, 'name': name, 'v': str(v)})
+        elif tok != v:
+            ctx.fail('property:list-value', f'{where}: item {v!r} written as {tok!r}', case)
+            return
+    inst = object.__new__(klass)
+    back = call(lambda: (prop.update_from_node(inst, w[1]), getattr(inst, name))[1])
+    if back[0] != 'ok' or list(back[1]) != list(values):
+        ctx.fail('property:list-roundtrip', f'{where} = {values!r} -> {xml!r} -> {back[1]!r}', case)
+
+
+def run_special_properties(ctx, dc, iso, b):
+    from lxml import etree
+    rng = ctx.subrng('special-props')
+    props = _special_props()
+    dob_strs = DT_EXPLICIT + ['2004-13-01', '2004-06-32', '2004-06-03T25:00:00', '2004-06-03T10:15', '2004-06-03T10:15:00+15:00', '03/06/2004',
+                              '2004-06-03', '2004-06', '2004', '2004-06-03T10:15:00', '2004-06-03Z', '2004-06-03-06:00', '2004-06-03T10:15:00.5+05:30']
+    dob_strs += gen_datetime_strings(rng, ctx.n(1500, 15000))
+    for off in range(-840, 841, 1 if ctx.tier == 'thorough' else 7):
+        for base in ('1972-01-07T03:15:30', '1972-01-07', '1972-01', '1972'):
+            dob_strs.append(base + tz_text(off))
+    dob_strs += ['1972-01-07T03:15:30-00:44', '1972-01-07-00:01', '1972-01-00:59', '1972-00:30']
+    lists = gen_decimal_lists(rng, ctx.n(400, 4000))
+    for klass, name, prop, kind in props:
+        ctx.count('prop:' + kind)
+        if kind == 'dob':
+            for s in dob_strs:
+                r = dob_oracle(ctx, iso, klass, name, prop, s)
+                if b is not None and s != '':      # an empty element delivers text None, not '' (TypeError of re, no model input)
+                    b.add('dtpy ' + hx(s), dt_dump(r[1]) if r[0] == 'ok' and r[1] is not None else ('err ' + r[1] if r[0] != 'ok' else 'ok None'),
+                          'date read through DateOfBirthProperty', {'cls': klass.__name__, 's': s})
+                ctx.case(('dob', klass.__name__, s))
+            # absent element: None
+            r = call(_read_through_property, klass, name, prop, False, None)
+            if r != ('ok', None):
+                ctx.fail('property:absent-value', f'{klass.__name__}.{name} absent: {r}', {'kind': 'prop', 'cls': f'{klass.__module__}.{klass.__name__}', 'name': name, 'literal': None})
+        elif kind == 'declist':
+            for lst in lists:
+                list_property_oracle(ctx, dc, klass, name, prop, kind, lst, b)
+                ctx.case(('declist', klass.__name__, [str(v) for v in lst]), nontrivial=bool(lst))
+            # XML -> Python: tokens separated by one or more blanks
+            for _ in range(ctx.n(300, 3000)):
+                toks = [D_lit(rng) for _ in range(rng.randrange(0, 6))]
+                xml = ''.join(t + ' ' * rng.randrange(1, 3) for t in toks).rstrip(' ') if rng.random() < 0.8 else ' '.join(toks)
+                node = etree.Element('x')
+                node.set(prop._attribute_name, xml)
+                inst = object.__new__(klass)
+                got = call(lambda: (prop.update_from_node(inst, node), getattr(inst, name))[1])
+                exp = call(lambda: [dc.DecimalConverter.to_py(t) for t in xml.split(' ') if t])
+                if got[0] != exp[0] or (got[0] == 'ok' and [x.as_tuple() for x in got[1]] != [x.as_tuple() for x in exp[1]]):
+                    ctx.fail('property:list-read', f'{klass.__name__}.{name} <- {xml!r}: {got[1]!r}, items say {exp[1]!r}',
+                             {'kind': 'proplist-read', 'cls': f'{klass.__module__}.{klass.__name__}', 'name': name, 'xml': xml})
+                elif got[0] == 'ok' and b is not None:
+                    for t, v in zip([t for t in xml.split(' ') if t], got[1]):
+                        b.add('decpy ' + hx(t), 'ok ' + dec_tuple(v), 'item read through ' + type(prop).__name__, {'t': t})
+                ctx.case(('declist-read', klass.__name__, xml), nontrivial=bool(toks))
+        else:
+            for lst in ([], ['h1'], ['h1', 'h2', 'h.3'], ['0', 'a-b', 'x_y']):
+                list_property_oracle(ctx, dc, klass, name, prop, kind, lst, b)
+                ctx.case(('strlist', klass.__name__, lst), nontrivial=bool(lst))
+    ctx.notes['special_properties'] = f'{sum(1 for p in props if p[3] == "dob")} DateOfBirth, {sum(1 for p in props if p[3] == "declist")} decimal list, {sum(1 for p in props if p[3] == "strlist")} string list properties'
+    if b is not None:
+        b.flush()
+
+
+def D_lit(rng):
+    """a legal xsd:decimal literal"""
+    nd = rng.randrange(1, 19)
+    digits = ''.join(rng.choice('0123456789') for _ in range(nd))
+    p = rng.randrange(nd + 1)
+    s = rng.choice(['', '', '-', '+']) + digits[:p] + ('.' + digits[p:] if p < nd or rng.random() < 0.2 else '')
+    return s if RE_DEC.match(s) else s + '0'
+
+
+def replay_special_case(ctx, case):
+    dc, iso = _mods()
+    for klass, name, prop, kind in _special_props():
+        if name == case['name'] and (f'{klass.__module__}.{klass.__name__}' == case['cls'] or klass.__name__ == case['cls'].split('.')[-1] == 'Probe2'):
+            if case['kind'] == 'dob':
+                dob_oracle(ctx, iso, klass, name, prop, case['s'])
+            elif case['kind'] == 'proplist':
+                vals = [Decimal(v) for v in case['values']] if case.get('item') == 'declist' else list(case['values'])
+                list_property_oracle(ctx, dc, klass, name, prop, kind, vals)
+            elif case['kind'] == 'proplist-read':
+                from lxml import etree
+                node = etree.Element('x')
+                node.set(prop._attribute_name, case['xml'])
+                inst = object.__new__(klass)
+                got = call(lambda: (prop.update_from_node(inst, node), getattr(inst, name))[1])
+                exp = call(lambda: [dc.DecimalConverter.to_py(t) for t in case['xml'].split(' ') if t])
+                if got[0] != exp[0] or (got[0] == 'ok' and [x.as_tuple() for x in got[1]] != [x.as_tuple() for x in exp[1]]):
+                    ctx.fail('property:list-read', str(case), case)
+            return
+
+
 def replay_property_case(ctx, case):
     dc, _ = _mods()
     for klass, name, prop, kind, is_attr in _scalar_props(dc):
@@ -811,18 +1018,21 @@ def dt_offset(info):
     return None if info.tz_info is None else round(info.tz_info.utcoffset(None).total_seconds() / 60)
 
 
-def dt_oracle(ctx, iso, s, r):
+def dt_oracle(ctx, iso, s, r, parse=None, write=None, what='parse_date_time', sig='datetime', case=None):
     """XML -> Python -> XML for one date/time literal: rejection outside the lexical space, fields and utc offset as written,
     the re-written literal is the canonical form of the input and parses to the same value"""
+    parse = parse or iso.parse_date_time
+    write = write or str
+    case = case or {'kind': 'dt', 's': s}
     t = s.strip(XML_WS)
     lex = dt_lexical(t)
     if lex is None:
         if r[0] == 'ok':
-            ctx.fail('datetime:lexical', f'parse_date_time({s!r}) -> {r[1]!r}', {'kind': 'dt', 's': s})
+            ctx.fail(sig + ':lexical', f'{what}({s!r}) -> {r[1]!r}', case)
         return
     if r[0] != 'ok':
         if s == t:
-            ctx.fail('datetime:valid-rejected', f'parse_date_time({s!r}) raised {r[1]}', {'kind': 'dt', 's': s})
+            ctx.fail(sig + ':valid-rejected', f'{what}({s!r}) raised {r[1]}', case)
         return
     fields, canon = lex
     info = r[1]
@@ -835,17 +1045,17 @@ def dt_oracle(ctx, iso, s, r):
         else:
             bad = have != want
         if bad:
-            ctx.fail('datetime:xml-py', f'parse_date_time({s!r}): {k} is {have!r}, the literal says {want!r}', {'kind': 'dt', 's': s})
+            ctx.fail(sig + ':xml-py', f'{what}({s!r}): {k} is {have!r}, the literal says {want!r}', case)
             return
-    out = str(info)
+    out = write(info)
     sec_txt = RE_DT.match(t).group('sec')
     short = sec_txt is None or '.' not in sec_txt or len(sec_txt.split('.')[1]) <= 6
     if out != canon and short:
-        ctx.fail('datetime:xml-py-xml', f'str(parse_date_time({s!r})) == {out!r}, canonical form of the input is {canon!r}', {'kind': 'dt', 's': s})
+        ctx.fail(sig + ':xml-py-xml', f'str({what}({s!r})) == {out!r}, canonical form of the input is {canon!r}', case)
         return
-    r2 = call(iso.parse_date_time, out)
-    if r2[0] != 'ok' or r2[1] != info or str(r2[1]) != out:
-        ctx.fail('datetime:roundtrip', f'{s!r} -> {out!r} -> {r2[1]!r}', {'kind': 'dt', 's': s})
+    r2 = call(parse, out)
+    if r2[0] != 'ok' or r2[1] != info or write(r2[1]) != out:
+        ctx.fail(sig + ':roundtrip', f'{s!r} -> {out!r} -> {r2[1]!r}', case)
 
 
 def tz_text(off, zero='Z'):
@@ -869,11 +1079,17 @@ def dt_object_oracle(ctx, iso, kw):
     return info, out
 
 
-def run_datetime(ctx, iso):
-    rng = ctx.subrng('dt')
-    b = Batch(ctx)
+DT_EXPLICIT = ['2020', '2020-13', '2020-00', '2020-01-32', '2020-01-01T24:00:01', '2020-01-01T25:00:00', '2020-01-01T00:60:00', '2020-01-01T00:00:60',
+               '20', '02020', '2020-1-1', '2020-01-01T00:00:00+14:01', '2020-01-01T00:00:00+15:00', '2020-01-01 00:00:00', '２０２０', '2020-01-01T00:00:0٣',
+               '2020-01-01T00:00:00z', '', 'abc', '2020-05:00', '2020-13:00', '2020-05-05:00', '2020-12-14:00', '2020-12-15:00', '2020-05', '2020-05-05', '2020Z',
+               '2020-05Z', '2020\n', '2020\n\n', '-0000', '0000', '+2020', '2020-01-01T', '2020-01-01T00:00', '2020-01-01T00:00:00.', '2020-01-01T00:00:00.5.5',
+               '2020-01-01T24:00:00.05', '2020-01-01T24:00:00.0Z', '2020-01T00:00:00', '2020T00:00:00', '2020-01-01T00:00:00.0000001', '2020-01-01T00:00:09.999999',
+               '2020-01-01T23:59:59.999999-14:00', '99999999999999999999-12-31', '1972-01-07T03:15:30-00:44', '1972-01-07-00:01', '1972-01-00:59', '1972-00:30']
+
+
+def gen_datetime_strings(rng, n):
     strs = []
-    for i in range(ctx.n(5000, 50000)):
+    for i in range(n):
         y = rng.choice([rng.randrange(1, 9999), rng.randrange(-9999, 0), rng.randrange(10000, 200000), 0])
         s = ('-' if y < 0 or rng.random() < 0.02 else '') + f'{abs(y):04d}'
         lvl = rng.randrange(4)
@@ -889,12 +1105,14 @@ def run_datetime(ctx, iso):
         if rng.random() < 0.2:
             s = _mutate(rng, s)
         strs.append(s)
-    strs += ['2020', '2020-13', '2020-00', '2020-01-32', '2020-01-01T24:00:01', '2020-01-01T25:00:00', '2020-01-01T00:60:00', '2020-01-01T00:00:60',
-             '20', '02020', '2020-1-1', '2020-01-01T00:00:00+14:01', '2020-01-01T00:00:00+15:00', '2020-01-01 00:00:00', '２０２０', '2020-01-01T00:00:0٣',
-             '2020-01-01T00:00:00z', '', 'abc', '2020-05:00', '2020-13:00', '2020-05-05:00', '2020-12-14:00', '2020-12-15:00', '2020-05', '2020-05-05', '2020Z',
-             '2020-05Z', '2020\n', '2020\n\n', '-0000', '0000', '+2020', '2020-01-01T', '2020-01-01T00:00', '2020-01-01T00:00:00.', '2020-01-01T00:00:00.5.5',
-             '2020-01-01T24:00:00.05', '2020-01-01T24:00:00.0Z', '2020-01T00:00:00', '2020T00:00:00', '2020-01-01T00:00:00.0000001', '2020-01-01T00:00:09.999999',
-             '2020-01-01T23:59:59.999999-14:00', '99999999999999999999-12-31', '1972-01-07T03:15:30-00:44', '1972-01-07-00:01', '1972-01-00:59', '1972-00:30']
+    return strs
+
+
+def run_datetime(ctx, iso):
+    rng = ctx.subrng('dt')
+    b = Batch(ctx)
+    strs = gen_datetime_strings(rng, ctx.n(5000, 50000))
+    strs += DT_EXPLICIT
     # every legal utc offset on every kind of literal (dateTime, date, gYearMonth, gYear)
     bases = ['1972-01-07T03:15:30', '1972-01-07T03:15:30.25', '1972-01-07T24:00:00', '1972-01-07', '1972-01', '1972', '-0044-03-15T23:59:59.999999']
     for off in range(-840, 841):
@@ -935,6 +1153,7 @@ def run(ctx):
     run_decimals(ctx, dc)
     run_durations(ctx, dc, iso)
     run_properties(ctx, dc, Batch(ctx))
+    run_special_properties(ctx, dc, iso, Batch(ctx))
     run_datetime(ctx, iso)
     T, D, C = dc.TimestampConverter, dc.DecimalConverter, dc.DurationConverter
     ctx.samples[:] = [
@@ -973,6 +1192,7 @@ def search(ctx):
     if ctx.failures:
         return
     run_properties(ctx, dc, None)
+    run_special_properties(ctx, dc, iso, None)
     if ctx.failures:
         return
     for _ in range(300_000):
@@ -1025,6 +1245,8 @@ def _replay_case(ctx, dc, iso, case, report=False):
         duration_value_oracle(ctx, case['s'], r)
     elif k == 'prop':
         replay_property_case(ctx, case)
+    elif k in ('dob', 'proplist', 'proplist-read'):
+        replay_special_case(ctx, case)
     elif k == 'enum':
         cls = dict(_enum_classes())[case['cls']]
         r = call(dc.EnumConverter(cls).to_py, case['s'])
